@@ -208,7 +208,7 @@ class TagSelection(Selection):
       if isinstance(value, config_lib.Buildable):
         for name, tags in value.__argument_tags__.items():
           if any(issubclass(tag, self.tag) for tag in tags):
-            yield getattr(value, name, tagging.NO_VALUE)
+            yield tagging.get_argument(value, name, tagging.NO_VALUE)
 
   def replace(self, value: Any, deepcopy: bool = True) -> None:
 
@@ -217,7 +217,7 @@ class TagSelection(Selection):
         for name, tags in node_value.__argument_tags__.items():
           if any(issubclass(tag, self.tag) for tag in tags):
             to_set = value if not deepcopy else copy.deepcopy(value)
-            setattr(node_value, name, to_set)
+            tagging.set_argument(node_value, name, to_set)
 
   def get(self, name: str) -> Iterator[Any]:
     raise NotImplementedError(
